@@ -46,6 +46,7 @@ type CaseReport struct {
 	Wall         float64
 	Asserts      int
 	Err          string
+	Skipped      string
 }
 
 func (c Case) String() string {
@@ -64,6 +65,11 @@ func (s *Session) Explore(c Case) *CaseReport {
 	fn, err := s.harnessFunc(c.Pkg, c.Func)
 	if err != nil {
 		rep.Err = err.Error()
+		if len(s.DroppedOptional) > 0 && strings.Contains(err.Error(), "not found") {
+			// an optional white-box harness that was left out: skipped, not inconclusive
+			rep.Skipped = "optional harness left out (does not compile against the current tree): " + strings.Join(s.DroppedOptional, ", ")
+			return rep
+		}
 		rep.Inconclusive = append(rep.Inconclusive, err.Error())
 		return rep
 	}
